@@ -20,7 +20,7 @@
    exact theorems) — for the async clients, whose code never reads a clock, CPU time is part of the
    timers' lateness; sending takes no time.  A TCP peer is the delay after which it accepts, the
    instants at which the bytes of its reply become readable and the instant it closes. *)
-From RsdnsModel Require Import Base GenHeader GenClient Client.
+From RsdnsModel Require Import Base GenTypes GenHeader GenClient Client RecordSet.
 Open Scope N_scope.
 
 Definition arrival := (N * list byte)%type.
@@ -271,3 +271,24 @@ Fixpoint udp_history (std smol : bool) (lifetime : N) (qt : option N) (jit proc 
     | (s, r, t, queue') => (s, r, t) :: udp_history std smol lifetime qt jit proc more queue'
     end
   end.
+
+(* ================================================================ the typed query over any raw query *)
+(* ClientImpl::query_rrset::<D>: refused without a configured buffer size or for a class that is not a
+   data class, before the raw query is called; otherwise the raw query ([raw], given the length of
+   the buffer it receives into: the client's buffer set to the configured size) for D's type, and
+   record-set extraction from exactly the bytes it returned; the raw query's error as it is.
+   [W]: whatever the raw query reports about its traffic; [w0]: no traffic. *)
+Definition rrset_of_raw {W : Type} (std : bool) (q : tquery) (buffer_size : N) (w0 : W)
+           (raw : N -> W * list event * res (list byte) * N) : W * list event * res RecordSet.rrset * N :=
+  if (if std then std_rrset_refuse buffer_size 0 0 else async_rrset_refuse buffer_size 0 0)
+  then (w0, [], Err BadParam, tq_start q)
+  else if (if std then std_rrset_bad_class (class_is_data (tq_class q)) else async_rrset_bad_class (class_is_data (tq_class q)))
+  then (w0, [], Err (UnsupportedClass (tq_class q)), tq_start q)
+  else
+    let room := if std then std_take_buf_len 0 buffer_size else async_take_buf_len 0 buffer_size in
+    match raw room with
+    | (wire, ev, Ok d, t) =>
+      let n := (if std then std_rrset_parse_len else async_rrset_parse_len) (lenN d) buffer_size in
+      (wire, ev, RecordSet.from_msg (firstn (N.to_nat n) d) (tq_type q), t)
+    | (wire, ev, r, t) => (wire, ev, retype r Panic, t)
+    end.
